@@ -14,6 +14,7 @@ package driver
 // (metadata, request) going in and (error, reply) coming back, h = stats tag.
 
 import (
+	"bytes"
 	"context"
 	"encoding/json"
 	"fmt"
@@ -63,6 +64,7 @@ type obsScen struct {
 	Mods  string   `json:"mods"`  // which values the stages rewrite: m(etadata) q(request) r(eply) e(rror)
 	Rpcs  []obsRpc `json:"rpcs"`
 	EOF   bool     `json:"eof"`   // the client's failing reads report io.EOF (a peer that closed a pipe / socket cleanly)
+	Par   int      `json:"par"`   // the first Par RPCs (all unary, outcome cancel) are in flight at once when the server is stopped
 	Retry int      `json:"retry"` // k+1: server stage k calls its handler a second time after it came back (0: none)
 	Deny  int      `json:"deny"`  // k+1: server stage k returns PermissionDenied without calling its handler (0: none)
 }
@@ -422,7 +424,7 @@ func (w *obsW) rpcOf(ctx context.Context) (int, string, *obsRpc) {
 // outcome is how the handler ends once the exchange is over.
 func (w *obsW) outcome(ctx context.Context, r *obsRpc) error {
 	switch r.Out {
-	case "ok", "swrite", "badreply", "badreq":
+	case "ok", "swrite", "badreply", "badreq", "bigreply":
 		return nil
 	case "herr":
 		if r.Herr == "eof" {
@@ -453,6 +455,9 @@ func (w *obsW) unaryHandler(srv any, ctx context.Context, dec func(any) error, i
 			resp = &wrapperspb.BytesValue{Value: []byte("r")}
 			if r.Out == "badreply" { // bytes the caller's reply type (a proto3 string) cannot take
 				resp = &wrapperspb.BytesValue{Value: []byte("\xffr")}
+			}
+			if r.Out == "bigreply" { // a reply larger than the round figures people cap messages at (5 MiB + 1)
+				resp = &wrapperspb.BytesValue{Value: bytes.Repeat([]byte{'r'}, 5<<20+1)}
 			}
 			rt = msgTok(resp)
 		}
@@ -721,7 +726,39 @@ func runObservers(t *testing.T, sc *Scenario, raw []byte) {
 				tr.emit(e)
 			})
 		}
+		if os_.Par > 0 {
+			// Par unary calls at once (more than the server has workers), their handlers waiting for their contexts;
+			// then Stop: every handler that ran ends, the requests that never got a worker are never started - and every
+			// Begin any stats handler has seen has its End
+			var dones []chan struct{}
+			var cancels []context.CancelFunc
+			for i := 0; i < os_.Par; i++ {
+				r := &os_.Rpcs[i]
+				ctx := metadata.NewOutgoingContext(root, metadata.Pairs(tokenKey, strconv.Itoa(r.C), chainKey, "o"))
+				ctx, cancel := context.WithCancel(ctx)
+				done := make(chan struct{})
+				go func() { w.call(ctx, cc, r); close(done) }()
+				synctest.Wait()
+				dones, cancels = append(dones, done), append(cancels, cancel)
+			}
+			e := ev("Fault")
+			e.K = "stop"
+			tr.emit(e)
+			srv.Stop()
+			synctest.Wait()
+			for i, cancel := range cancels {
+				tr.emit(obsEv("Cancel", os_.Rpcs[i].C, 0, "", "", "", ""))
+				cancel()
+			}
+			synctest.Wait()
+			for _, d := range dones {
+				<-d
+			}
+		}
 		for i := range os_.Rpcs {
+			if i < os_.Par {
+				continue
+			}
 			r := &os_.Rpcs[i]
 			switch r.Out {
 			case "cwrite":
